@@ -226,8 +226,8 @@ type mutant struct {
 }
 
 type stats struct {
-	mu      sync.Mutex
-	perMut  map[string]*[4]int64 // tried, accepted(true claim), rejected, panicked
+	mu       sync.Mutex
+	perMut   map[string]*[4]int64 // tried, accepted(true claim), rejected, panicked
 	disagree map[string]int64
 }
 
